@@ -24,7 +24,7 @@ RULE = ('(a) Library round trip through the harness: samples are built in memory
 ASSUMPTIONS = ['in-memory vs reloaded comparison is model-free; part (c) uses the reference model',
                'the harness reload mimics the command-line width dispatch (u64 first, then u128)']
 REQUIRED = {t: ['rt:nk', 'rt:align', 'rt:dist', 'rt:map', 'rt:vcf', 'rt:weed', 'rt:delete', 'cli:align', 'cli:map',
-                'narrow:nk', 'narrow:align', 'narrow:map', 'narrow:distance', 'cli-reads:align', 'cli-reads:map', 'merges_of_9+_files', 'narrow:weed', 'narrow:weed-then-delete', 'narrow:delete', 'narrow-merge-output:dotted', 'narrow-merge-output:onto-first-input', 'narrow-merge-output:onto-second-input',
+                'narrow:nk', 'narrow:align', 'narrow:map', 'narrow:distance', 'cli-reads:align', 'cli-reads:map', 'merges_of_9+_files', 'sample_names_with_white_space_at_an_end', 'narrow:reverse-weed-nothing', 'narrow:weed', 'narrow:weed-then-delete', 'narrow:delete', 'narrow-merge-output:dotted', 'narrow-merge-output:onto-first-input', 'narrow-merge-output:onto-second-input',
                 'narrow:merge-first', 'narrow:merge-second', 'narrow_files_fit_64_bits', 'multi_frame_files', 'rt_rows_compared', 'miri_round_trips', 'empty:nk', 'empty:merge-first', 'empty:merge-second', 'empty:merge-middle']
             for t in ('quick', 'thorough')}
 NARROW_K = [33, 35, 37, 41, 51, 63]
@@ -168,7 +168,11 @@ def run_cli(desc, ctx, res):
     if any(not M.build(r, k, True) for r in samples):
         res.count('degenerate_sample_skipped')
         return
-    files = [G.write_fa(ctx.path('s%d.fa' % i), recs) for i, recs in enumerate(samples)]
+    # file names give the sample names: plain, with an interior dot, with a space before the extension (the name then ends in a space)
+    fstyle = ['s%d', 's%d', 'GCF_%d.2', 's%d ', ' s%d'][desc['seed'] % 5]
+    if fstyle.strip() != fstyle:
+        res.count('sample_names_with_white_space_at_an_end')
+    files = [G.write_fa(ctx.path((fstyle % i) + '.fa'), recs) for i, recs in enumerate(samples)]
     ctx.write('ref.fa', '>chr1\n%s\n' % samples[0][0])
     p = G.ska_build(ctx, ctx.path('o'), files, k, True)
     if p.returncode != 0:
@@ -177,8 +181,9 @@ def run_cli(desc, ctx, res):
     n1, s1, p1 = G.align_output(ctx, files + args)
     n2, s2, p2 = G.align_output(ctx, [ctx.path('o.skf')] + args)
     res.evals += 1
-    if n1 is None or n2 is None or n1 != n2 or sorted(M.columns(s1)) != sorted(M.columns(s2)):
-        res.violate('C09:cli:align', 'ska align <fastas> %s differs from ska build + ska align <skf>' % args, {'samples': samples})
+    if n1 is None or n2 is None or n1 != n2 or sorted(M.columns(s1)) != sorted(M.columns(s2)) or n1 != [fstyle % i for i in range(ns)]:
+        res.violate('C09:cli:align', 'ska align <fastas> %s differs from ska build + ska align <skf> (names %r / %r, expected %r)'
+                    % (args, n1, n2, [fstyle % i for i in range(ns)]), {'samples': samples})
     else:
         res.count('cli:align')
         res.nontrivial.append(fingerprint(['cli', desc['seed']]))
@@ -432,6 +437,23 @@ def run_narrow(desc, ctx, res):
                         viol('weed-then-delete', 'delete %s on the file saved by weed %s differs from the delete on its content: %s' % (dn2, wflags, d2_[:3]))
                     elif p2.returncode == 0:
                         res.count('narrow:weed-then-delete')
+        # reverse weed with a weed file that shares no k-mer with the table: nothing is kept
+        for _try in range(50):
+            wnone = G.rseq(rng, k)
+            if not (set(M.build([wnone], k, rcmode)) & set(rowsN)):
+                break
+        G.write_fa(ctx.path('wnone.fa'), [wnone])
+        p = ctx.sh(b, 'weed', ctx.path('narrow.skf'), ctx.path('wnone.fa'), '--min-freq', '0', '--reverse', '-o', ctx.path('wnone.skf'))
+        if not chk_overflow(p):
+            res.evals += judged
+            try:
+                hn_, Tn_ = G.nk(ctx, ctx.path('wnone.skf'), binary=b) if p.returncode == 0 else (None, None)
+            except (G.NkFailed, ValueError):
+                Tn_ = None
+            if Tn_ != {}:
+                viol('reverse-weed-nothing', 'reverse weed with a weed file sharing no k-mer with the table keeps %s rows: %s' % (None if Tn_ is None else len(Tn_), p.stderr.strip()[-100:]))
+            elif judged:
+                res.count('narrow:reverse-weed-nothing')
         # delete
         dn = sorted(rng.sample(range(ns), rng.randint(1, ns - 1)))
         delname = 'deleted' if desc['seed'] % 2 else 'kept.2024-06'          # output prefixes with and without dots
